@@ -236,6 +236,21 @@ def extract_dataframe(
     point_dataset = point_dataset.merge(coord_dataset, join=join, fill_value=fill_value)
     point_dataset = point_dataset.set_coords(coordinate_columns)
 
+    if missing_points == 'fill':
+        # Integer variables that have no fill value are promoted to floats
+        # so that the missing points can be represented.
+        # The integer dtype remembered from the source file would turn
+        # those missing values in to arbitrary integers when the dataset is saved.
+        for variable in point_dataset.variables.values():
+            encoded_dtype = variable.encoding.get('dtype')
+            if (
+                encoded_dtype is not None
+                and numpy.dtype(encoded_dtype).kind in 'iu'
+                and variable.dtype.kind == 'f'
+                and variable.encoding.get('_FillValue') is None
+            ):
+                del variable.encoding['dtype']
+
     # Add CF attributes to the new coordinate variables
     point_dataset[lon_coord].attrs.update({
         "long_name": "Longitude",
